@@ -1227,11 +1227,19 @@ class HttpHeaderFieldValueContentTypeCharset(FieldValueComponentString):
     def get_canonical_name(cls):
         return 'charset'
 
+    @classmethod
+    def _check_name(cls, name):
+        cls._check_name_insensitive(name)
+
 
 class HttpHeaderFieldValueContentTypeBoundary(FieldValueComponentString):
     @classmethod
     def get_canonical_name(cls):
         return 'boundary'
+
+    @classmethod
+    def _check_name(cls, name):
+        cls._check_name_insensitive(name)
 
 
 @attr.s
